@@ -19,7 +19,7 @@ THEOREMS = [
     'Pfst.C10.raw_eq_full_partial', 'Pfst.C10.raw_ok_iff_valid_partial', 'Pfst.C10.movePos_eq_offsetPos',
     'Pfst.C10.reparse_eq_full_partial', 'Pfst.C10.reparse_eq_full_f6', 'Pfst.C10.tail_not_past_semicolon',
     'Pfst.C10.guard_rejects_known_witnesses', 'Pfst.C10.f8_invalid_edit_refused', 'Pfst.C10.f9_valid_edit_accepted',
-    'Pfst.C10.header_graft_keeps_old_blocks', 'Pfst.C10.header_graft_same_class', 'Pfst.C10.try_finally_no_phantom_handler',
+    'Pfst.C10.tail_through_match_case', 'Pfst.C10.rect_in_region_lines', 'Pfst.C10.header_graft_keeps_old_blocks', 'Pfst.C10.header_graft_same_class', 'Pfst.C10.try_finally_no_phantom_handler',
     'Pfst.C10.clip_in_range', 'Pfst.C10.ret_end_is_end_of_new_text', 'Pfst.C11b.clip_spellings', 'Pfst.C11b.clip_bounds',
     'Pfst.C10.raw_put_registry_restored', 'Pfst.C10.raw_put_outcome', 'Pfst.C10.raw_seq_registry_empty',
     'Pfst.C10.raw_seq_no_registry_error', 'Pfst.C10.leaky_seq_false',
@@ -29,7 +29,9 @@ RULE = ('histories of k<=6 raw edits on one live tree per corpus program, refuse
         'continuing on the same tree after every refusal; a deterministic family of edits wholly inside the header of every '
         'block statement kind x every combination of optional blocks x nesting (identity re-put of each header token and of '
         'the first two letters, every gap collapsed / widened / turned into a continuation, names renamed or parenthesised); '
-        'expression roots judged by ast.parse(mode="eval"); before EVERY step loc/bloc/pars() of every node are read (caches '
+        'every block kind nested in every block kind (and `match` between two others) with the innermost last statement edited '
+        'so that it ends before / at / after the end of the put text; raw node puts with `to=` a later node (same statement, '
+        'later `;` statement on the same line, later line); expression roots judged by ast.parse(mode="eval"); before EVERY step loc/bloc/pars() of every node are read (caches '
         'populated), every put_src coordinate is spelled at random as plain / negative from the end of the source or of its '
         'own line / "end" / out of range, get_src with the same spelling is compared with plain Python slicing, replacement '
         'texts include equal-UTF-8-bytes/other-characters and equal-characters/other-bytes swaps of names and strings, raw node '
@@ -171,6 +173,7 @@ def _pipeline(ctx, recs, plan_only=False):
 def _witness(r):
     return {'src': r['src'], 'op': r['op'], 'rect': r['rect'], 'new': r['new'],
             **({'node_path': r['node_path']} if 'node_path' in r else {}),
+            **({'to_path': r['to_path']} if 'to_path' in r else {}),
             **({'history': r['history']} if r.get('history') else {}),
             **({'spelled': r['spelled']} if r.get('spelled') and r['spelled'] != r['rect'] else {})}
 
@@ -357,6 +360,10 @@ def _exec_witness(w, rec):
     rid = id(root)
     if w['op'] == 'put_src':
         call = lambda: root.put_src(w['new'], *w['rect'], 'reparse')
+    elif w['op'] == 'raw-put-to':
+        node, to = root.child_from_path(_astpath(w['node_path'])), root.child_from_path(_astpath(w['to_path']))
+        r['node_path'], r['to_path'] = w['node_path'], w['to_path']
+        call = lambda: node.replace(w['new'], raw=True, pars=False, to=to)
     elif w['op'] == 'raw-put':
         node = root.child_from_path(_astpath(w['node_path']))
         r['node_path'] = w['node_path']
@@ -484,6 +491,19 @@ for _src, _script in HISTORIES:
             break
 
 
+# raw put `to=` a later node: same statement, a later `;` statement on the same line, a later line, across a block header
+_V = [['value', None]]
+HISTORIES += [
+    ('a = 1; b = 2', [('raw-to', [['body', 0]] + _V, [['body', 1]] + _V, 'x')]),
+    ('a = 1; b = 2; c = 3\nd = 4', [('raw-to', [['body', 0]] + _V, [['body', 1]] + _V, 'x'), ('raw-to', [['body', 0]] + _V, [['body', 1]] + _V, 'y')]),
+    ('if q: a = f(1); b = 2; d = 3\n', [('raw-to', [['body', 0], ['body', 0], ['value', None], ['args', 0]], [['body', 0], ['body', 1]] + _V, '7)')]),
+    ('def g():\n    a = [1, 2]; b = 3\n    return a', [('raw-to', [['body', 0], ['body', 0], ['value', None], ['elts', 1]], [['body', 0], ['body', 1]] + _V, '4]')]),
+    ('a = f(1, 2)\nb = 3', [('raw-to', [['body', 0], ['value', None], ['args', 0]], [['body', 0], ['value', None], ['args', 1]], 'k')]),
+    ('a = 1\nb = 2\nc = 3', [('raw-to', [['body', 0]] + _V, [['body', 1]] + _V, 'x')]),
+    ('class K:\n    a = 1; b = 2  # c\n    d = 3', [('raw-to', [['body', 0], ['body', 0]] + _V, [['body', 0], ['body', 1]] + _V, 'x')]),
+]
+
+
 def _histories(ctx):
     recs = []
     for src, script in HISTORIES:
@@ -493,7 +513,7 @@ def _histories(ctx):
 
 def _header_family(ctx):
     """every block statement kind x optional blocks x nesting: edits wholly inside the header, one per fresh tree"""
-    edits = ops.header_edits() + ops.span_edits()
+    edits = ops.header_edits() + ops.span_edits() + ops.tail_chain_edits()
     res = pmap(ops.run_sequence, [(src, 0, 0, ['put_src'], [e]) for src, e, _ in edits])
     recs = []
     for (src, e, label), lst in zip(edits, res):
@@ -596,7 +616,7 @@ def sweep(ctx):
     _account(ctx, _pipeline(ctx, _header_family(ctx)), 'header edits (every block kind x optional blocks x nesting) vs Pfst.Raw')
     _expr_roots(ctx)
     progs = _programs(ctx, 160 if q else 1200, 12 if q else 150)
-    mix = ['put_src'] * 7 + ['raw-put'] * 2 + ['reparse']
+    mix = ['put_src'] * 7 + ['raw-put'] * 2 + ['raw-put-to', 'reparse']
     recs = _gather(ctx, progs, 6, 6 if q else 9, mix)
     triples = _pipeline(ctx, recs)
     _account(ctx, triples, 'raw reparse (wrapper, path, deltas, return, accept, tree) vs Pfst.Raw')
